@@ -295,17 +295,28 @@ func init() {
 			out := Derives(IsCallOf(c.Fn("payloadQueue.getNumBytes")))
 			nZ, nD := 0, 0
 			for _, sc := range callsIn(hs, setR) {
-				arg := callArg(sc, 1)
-				if IsConstInt(0)(arg) {
-					nZ++
-					c.Dom("rwnd-zero-when-exceeded", sc, CmpCond(token.GEQ, out, IsLoadOf(arw)), "outstanding >= a_rwnd")
-				} else {
-					nD++
-					c.Check(BinV(token.SUB, IsLoadOf(arw), out)(arg), "rwnd-difference", c.Pos(sc), "setRWND(a_rwnd - outstanding)", "rwnd not computed as a_rwnd - outstanding")
-					c.Dom("rwnd-difference-guarded", sc, CmpCond(token.LSS, out, IsLoadOf(arw)), "outstanding < a_rwnd")
+				// every value the new window can take: 0 when outstanding >= a_rwnd, a_rwnd − outstanding when outstanding < a_rwnd
+				for _, lf := range leavesWithFacts(callArg(sc, 1)) {
+					facts := append(append([]condFact{}, lf.Facts...), DomFactsX(sc.Block())...)
+					has := func(p CondPat) bool {
+						for _, f := range facts {
+							if p(f.Cond, f.Taken) {
+								return true
+							}
+						}
+						return false
+					}
+					if IsConstInt(0)(lf.Val) {
+						nZ++
+						c.Check(has(CmpCond(token.GEQ, out, IsLoadOf(arw))), "rwnd-zero-when-exceeded", c.Pos(sc), "window 0 chosen under outstanding >= a_rwnd", "window set to 0 without outstanding >= a_rwnd")
+					} else {
+						nD++
+						c.Check(BinV(token.SUB, IsLoadOf(arw), out)(lf.Val), "rwnd-difference", c.Pos(sc), "setRWND(a_rwnd - outstanding)", "rwnd not computed as a_rwnd - outstanding")
+						c.Check(has(CmpCond(token.LSS, out, IsLoadOf(arw))), "rwnd-difference-guarded", c.Pos(sc), "difference chosen under outstanding < a_rwnd", "a_rwnd - outstanding used without outstanding < a_rwnd (unsigned wrap)")
+					}
 				}
 			}
-			c.Check(nZ == 1 && nD == 1, "rwnd-sites", c.P.Pos(hs.Pos()), "one zero and one difference site", fmt.Sprintf("zero=%d diff=%d", nZ, nD))
+			c.Check(nZ >= 1 && nD >= 1, "rwnd-sites", c.P.Pos(hs.Pos()), fmt.Sprintf("zero=%d diff=%d", nZ, nD), fmt.Sprintf("zero=%d diff=%d", nZ, nD))
 			// both are reached only after the SACK was processed
 			for _, sc := range callsIn(hs, setR) {
 				for _, pc := range callsIn(hs, c.Fn("Association.processAcknowledgement")) {
@@ -359,8 +370,29 @@ func init() {
 			okFrag := false
 			forEachInstr(pk, func(in ssa.Instruction) {
 				if ms, ok := in.(*ssa.MakeSlice); ok {
-					if call, ok := isCallTo(unconv(ms.Len), min32); ok && (IsLoadOf(mps)(call.Call.Args[0]) || IsLoadOf(mps)(call.Call.Args[1])) {
+					// the length is min32(maxPayloadSize, …), possibly written as (offset + min32(…)) − offset
+					l := unconv(ms.Len)
+					if sub, isSub := l.(*ssa.BinOp); isSub && sub.Op == token.SUB {
+						if add, isAdd := unconv(sub.X).(*ssa.BinOp); isAdd && add.Op == token.ADD {
+							switch {
+							case sameExpr(add.X, sub.Y, 0):
+								l = unconv(add.Y)
+							case sameExpr(add.Y, sub.Y, 0):
+								l = unconv(add.X)
+							}
+						}
+					}
+					if call, ok := isCallTo(l, min32); ok && (IsLoadOf(mps)(call.Call.Args[0]) || IsLoadOf(mps)(call.Call.Args[1])) {
 						okFrag = true
+					}
+					if call, ok := l.(*ssa.Call); ok {
+						if b, isB := call.Call.Value.(*ssa.Builtin); isB && b.Name() == "min" {
+							for _, a := range call.Call.Args {
+								if IsLoadOf(mps)(a) {
+									okFrag = true
+								}
+							}
+						}
 					}
 				}
 			})
